@@ -65,6 +65,12 @@ def _case(draw):
         nrec = len(table["records"])
         ids = draw(st.lists(st.integers(0, nrec), min_size=1, max_size=4, unique=True))
         prog["comps"].append(["f", "in", [], [["h", "id"], ["t", "|".join(f"r{i}" for i in ids)]]])
+    if draw(st.integers(0, 3)) == 1:
+        # lines passed over by advance()/skip() are scanned but not matched: they belong to 'no-matches'
+        nrec = len(table["records"])
+        cond = ["==", ["f", "line_number", [], []], ["t", draw(st.integers(1, nrec))]]
+        act = ["f", "advance", [], [["t", draw(st.integers(1, 3))]]] if draw(st.booleans()) else ["f", "skip", [], []]
+        prog["comps"].insert(draw(st.integers(0, len(prog["comps"]))), ["->", cond, act])
     nf = draw(st.sampled_from([0, 1, 2, 2, 3, 3, 4]))
     keys = draw(st.lists(st.sampled_from(KEYS), min_size=nf, max_size=nf, unique=True))
     fields = [[k, draw(_value())] for k in keys]
@@ -177,6 +183,21 @@ def run_case(case, sb):
         te = full_text(case, rel, build_comment(case, {"print-mode": "default"}))
         Td = real.run_path(td, want_stdout=True)
         Te = real.run_path(te, want_stdout=True)
+        # a log printer (library class, a subclass of the standard-out printer) must stay attached
+        import logging
+        from csvpath.util.printer import LogPrinter
+        holder = {}
+
+        def pre(p):
+            lg = logging.getLogger("vf.c15.sink")
+            lg.propagate = False
+            lg.setLevel(logging.CRITICAL)
+            holder["lp"] = LogPrinter(lg)
+            p.add_printer(holder["lp"])
+        Tl = real.run_path(td, want_stdout=True, pre=pre)
+        if Tl["stdout"] != "" or holder["lp"].lines_printed != len(T0["printouts"]) or Tl["printouts"] != T0["printouts"]:
+            problems.append({"relation": "d: no-default with a LogPrinter attached", "csvpath": td, "stdout": Tl["stdout"],
+                             "log_printer_lines": holder["lp"].lines_printed, "expected": len(T0["printouts"])})
         if Td["stdout"] != "" or Td["printouts"] != T0["printouts"]:
             problems.append({"relation": "d: no-default", "csvpath": td, "stdout": Td["stdout"], "printer": Td["printouts"], "expected_printer": T0["printouts"]})
         if Te["stdout"].split("\n")[:-1] != T0["printouts"] and Te["stdout"] != "".join(x + "\n" for x in T0["printouts"]):
